@@ -8,7 +8,7 @@ BUDGET = {"quick": 1500, "thorough": 30000}
 LEVEL_TEXT = ("Lean theorems: C09_keys_full_holds (a key is accepted iff some line of the file carries it, for every file), "
               "C09_password_decision (password logins granted exactly in the three documented cases), C09_health_only; tied to "
               "the code by running the real verifyAuthorizedKeys on generated key files (per-line oracle from ssh.ParseAuthorizedKey), "
-              "the real password Callback with generated job configurations, and a real server-side health session; c09.pwseq: several password logins in a row against one server value and one job configuration (nothing a server keeps between handshakes may change a decision)")
+              "the real password Callback with generated job configurations, and a real server-side health session; c09.pwseq: several password logins in a row against one server value and one job configuration (nothing a server keeps between handshakes may change a decision); c09.callback: the real PublicKeyCallback, which finds and reads the key file itself (cached copy present, a directory in its place, missing)")
 TRUSTED = ["Lean 4 kernel", "axioms: propext, Quot.sound, Classical.choice (at most)", "fact extractor (service user names)",
            "overlay harness + dtmodel driver + this diff",
            "modelled not verified: golang.org/x/crypto/ssh (signature verification of the offered key, ParseAuthorizedKey's skip-to-first-key "
@@ -19,7 +19,25 @@ RULE = ("seeded key files: ed25519 keys with/without options, CRLF, leading blan
         "three service users and ordinary users with job lists and allow-lists; health sessions with every command word; non-trivial = a tag")
 
 
+def _gen_callback(rng, n):
+    """the whole public-key callback: it finds and reads the key file itself"""
+    kinds = ["k", "o", "r", "x", "c", "b", "t", "g"]
+    for _ in range(n):
+        specs = []
+        for _ in range(rng.choice([0, 1, 2, 3, 5])):
+            k = rng.choice(kinds)
+            specs.append(k + (str(rng.randrange(4)) if k in "korx" else ""))
+        where = rng.choice(["cache", "cache", "cache", "dir", "emptydir", "missing"])
+        yield f"c09.callback {where} {','.join(specs) if specs else '-'} {rng.randrange(2)} {rng.randrange(5)}"
+
+
 def gen(rng, budget, tier):
+    yield from _gen_main(rng, budget, tier)
+    # added last: earlier streams keep their cases
+    yield from _gen_callback(rng, 200 if tier == "quick" else 6000)
+
+
+def _gen_main(rng, budget, tier):
     kinds = ["k", "o", "r", "x", "c", "b", "t", "g"]
     for _ in range(budget):
         r = rng.random()
